@@ -155,6 +155,9 @@ def escapeDq : Str → Str
   | '"' :: r => '\\' :: '"' :: escapeDq r
   | c :: r => c :: escapeDq r
 
+/-- `^#include`: a word that starts like an include directive is written in quotes -/
+def startsInclude (s : Str) : Bool := "#include".toList.isPrefixOf s
+
 /-- `Formatter.format_string` with the Native / Foam overrides -/
 def formatString (fl : Flavor) (s : Str) : Str :=
   if s.contains '$' then
@@ -167,7 +170,7 @@ def formatString (fl : Flavor) (s : Str) : Str :=
     | .native => if s.contains '"' then sq s else dq s
     | .foam => if s.contains '"' then dq (escapeDq s) else dq s
     | .base => sq s
-  else if s.any isComplexChar then
+  else if s.any isComplexChar || startsInclude s then
     match fl with | .native => sq s | .foam => dq s | .base => s
   else s
 
